@@ -268,6 +268,8 @@ def check_case(case, acc):
         _check_maxseqs(acc, case)
     elif kind == "maxseqs-table":
         _check_maxseqs_table(acc, case)
+        if len(case[1]) >= 3:
+            _check_maxseqs_tuple(acc, case)
     elif kind == "background":
         _check_background(acc, case)
     elif kind == "default-bins":
@@ -407,6 +409,43 @@ def _check_maxseqs(acc, case):
             acc.ok((tuple(seqs), m, tuple(sorted(outcomes))), nontrivial=N > m)
 
 
+def _check_maxseqs_tuple(acc, case):
+    """legacy (alphas, betas) tuple with maxseqs: a sub-sample of exactly min(N, maxseqs) paired rows"""
+    import pyrepseq
+    tab = case[1]
+    A = [CD[a] for a, b in tab]
+    B = [CD[b] for a, b in tab]
+    N = len(tab)
+    edges = [0, 1, 2, 3]
+    for m in sorted({1, 2, N - 1, N, N + 1}):
+        if m < 1:
+            continue
+        holder = {}
+
+        def run(ch):
+            with rng_seam(ch) as seam:
+                r = acc.call(pyrepseq.pcDelta, (list(A), list(B)), bins=edges, normalize=False, maxseqs=m)
+                holder["prob"] = seam.prob
+            return r
+        outcomes = {}
+        for choices, r in explore_choices(run):
+            if raised(r):
+                acc.fail("pcDelta/maxseqs-legacy-tuple/raised-%s" % r.type, case, "a histogram", r, note="m=%d" % m)
+                return
+            k = tuple(int(x) for x in r)
+            outcomes[k] = outcomes.get(k, 0) + holder["prob"]
+        expd = {}
+        subs = list(itertools.combinations(range(N), min(N, m)))
+        for s_ in subs:
+            vals = [ref_lev(A[i], A[j]) + ref_lev(B[i], B[j]) for i, j in itertools.combinations(s_, 2)]
+            h = tuple(ref_hist(vals, edges))
+            expd[h] = expd.get(h, 0) + Fraction(1, len(subs))
+        if outcomes != expd:
+            acc.fail("pcDelta/maxseqs-legacy-tuple/distribution", case, {str(k): str(v) for k, v in expd.items()}, {str(k): str(v) for k, v in outcomes.items()}, note="m=%d N=%d" % (m, N))
+            return
+        acc.ok((tab, m, "tuple"), nontrivial=N > m)
+
+
 def _check_maxseqs_table(acc, case):
     import pandas as pd
     import pyrepseq
@@ -467,7 +506,18 @@ def _check_background(acc, case):
     h = acc.call(pyrepseq.pcDelta, ["CASSF", "CASTF", "CAF"], bins=np.asarray(bins))
     if raised(h) or len(h) != len(back):
         problems.append("pcDelta(x, bins=bins) has %s entries, table has %d rows" % ("?" if raised(h) else len(h), len(back)))
+    # the returned table and bins belong to the caller: scribbling on them must not leak into the next call
+    try:
+        bins_arr = r[1]
+        bins_arr[-1] = 1000
+        back.iloc[0, 0] = -1.0
+    except Exception:
+        pass
+    r2 = acc.call(pyrepseq.load_pcDelta_background)
+    if raised(r2) or list(np.asarray(r2[1]).tolist()) != list(range(len(bins))) or float(r2[0].iloc[0, 0]) == -1.0:
+        problems.append("a second call returns objects modified by the caller after the first call (shared/cached result)")
     b2 = acc.call(pyrepseq.load_pcDelta_background, return_bins=False)
+    back = r2[0] if not raised(r2) else back
     if raised(b2) or not b2.equals(back):
         problems.append("return_bins=False differs")
     if problems:
